@@ -110,3 +110,11 @@ def unit_verify_sig_head():
     frag = rewrite(frag, [(r'void Value::verify_sig\(bool compact\) \{', 'void Value::verify_sig_head(bool compact) {', 1)])
     t += rewrite(frag, R_TYPES) + '    g_vsig_head_done = 1;\n}\n'
     return t + '\n#include "h_vsig.h"\n'
+
+def unit_hashtype_str():
+    """hashtype_str (debugger/interpreter.h): the hash-type text of the signing log"""
+    t = '#include "verif_std.h"\n#include "hashtype_env.h"\n'
+    t += between('script/interpreter.h', r'^/\*\* Signature hash types/flags \*/$', r'^/\*\* Script verification flags\.$', include_end=False)
+    f = block('debugger/interpreter.h', r'^static inline std::string hashtype_str\(int h\) \{', trailing=None)
+    t += f
+    return t + '\n#include "h_hashtype.h"\n'
